@@ -50,6 +50,10 @@ def run(ck: Checker, prog: Program, tier: str):
     ck.guard(_r5, ck, prog)
     ck.guard(_r6, ck, prog)
     ck.guard(_invariant_families, ck, prog)
+    # invariance of the bound formulas presupposes that ns and ew reach them through the same taper and transform
+    from . import c01
+    with ck.borrow(c01, "C04.R3+"):
+        ck.guard(c01._body, ck, prog, "processing.traditional_hvsr_processing")
 
 
 INVARIANT_FAMILIES = {
